@@ -52,10 +52,12 @@ def fold_fn(name, x):
     sort = {"int": z3.IntSort(), "bool": z3.BoolSort(), "elem": ElemSort, "bv": z3.BitVecSort(64)}[x.kind]
     if name in ("logical_and", "logical_or"):
         sort = z3.BoolSort()
+    elif name in ("add", "multiply") and x.kind == "bool":
+        sort = z3.IntSort()          # numpy accumulates booleans in the platform integer for add / multiply (reduce, reduceat, accumulate)
     fold = z3.Function(fresh_name("fold_" + name), z3.IntSort(), z3.IntSort(), sort)
     snap = x.snapshot()
     n = dim_term(x.shape_[0])
-    k = "bool" if sort == z3.BoolSort() else x.kind
+    k = "bool" if sort == z3.BoolSort() else ("int" if sort == z3.IntSort() else x.kind)
     c.assume_forall("fold.one", lambda s: z3.Implies(z3.And(0 <= s, s < n), fold(s, s + 1) == coerce_term(snap(s), k)))
     c.assume_forall("fold.step", lambda s, e: z3.Implies(z3.And(0 <= s, s < e, e < n),
                     fold(s, e + 1) == apply_binary(name, fold(s, e), coerce_term(snap(e), k))), arity=2)
@@ -92,7 +94,7 @@ def reduceat(ufunc, a, idx):
         last = fold(isnap(i), n)
         mid = z3.If(isnap(i) < isnap(i + 1), fold(isnap(i), isnap(i + 1)), coerce_term(asnap(isnap(i)), k))
         return z3.If(i == m - 1, last, mid)
-    dt = _np.dtype(bool) if k == "bool" else a.dtype
+    dt = _np.dtype(bool) if k == "bool" else (_np.dtype(_np.int64) if a.kind == "bool" else a.dtype)
     r = SymArr.fresh(idx.shape_, f, k, dt)
     return r
 
